@@ -30,7 +30,9 @@ RULE = ("case = random history (<= 12 ops quick / <= 40 thorough) over up to 3 s
         "in-place randomisation of all parameters (non-zero biases), real fit, addUnitary, mkMeta (None, {}, flat, nested, tensor-valued, "
         "reserved keys, non-string key; the key 'unitary_dict' also on states WITHOUT a dictionary, where it is ordinary metadata), save, repeated "
         "save with the same dict, ModelSaver checkpoints through on_epoch_end (dict / callable / None, metadata_only), location as a path or "
-        "as an open file object (save, load, autoload), "
+        "as an open file object (save, load, autoload; a real file or an io.BytesIO; positioned at 0, BEHIND a header of 1-1000 bytes the caller "
+        "wrote first, or at the end of a STREAM of checkpoints shared by several saves of several models - a history file is (physical file, "
+        "start position) and is read back from exactly there; checkpoints followed by later data are not readable by torch.load itself and not read), "
         "load (compatible and incompatible), autoload (same and other state type), reinitialise; after every op all parameter tokens, "
         "identity classes, unitary dicts, metadata contents, torch.load of every file and the error kind are compared exactly with the "
         "model. non-trivial iff some load/autoload succeeds from a file written after a randomisation/training of its source; "
@@ -71,6 +73,29 @@ def rand_arch(rng, kind):
     nh = rng.choice([None, nv + 1, nv + 2, 1 if nv > 1 else 3])
     na = rng.choice([None, nv + 1, 1 if nv > 1 else 2]) if kind == "dens" else None
     return nv, nh, na
+
+
+def fobj_form(rng, writing):
+    """`location` as an open file object. Writing: a fresh file (the state starts at position 0), a file in which the caller has already
+    written a header of his own (the state starts at position n > 0), or a stream of checkpoints to which the state is appended (shared
+    by several saves of this and other models); a real file or an io.BytesIO.  Reading: WHERE the state starts is a fact of the history
+    (how the file was written) - a location that is not the start of its own file is always handed over as a file object positioned there;
+    the reader only chooses between path / real file object / BytesIO."""
+    io = "bytes" if rng.random() < 0.4 else None
+    if not writing:
+        f = {"fobj": True} if rng.random() < 0.3 else {}
+        if io:
+            f["io"] = io   # used whenever the location has to be (or is chosen to be) a file object
+        return f
+    f = {"fobj": True}
+    r = rng.random()
+    if r < 0.3:
+        f["hdr"] = rng.choice([1, 14, 15, 1000])
+    elif r < 0.65:
+        f["stream"] = rng.randrange(2)
+    if io:
+        f["io"] = io
+    return f
 
 
 def gen_plan(rng, maxlen):
@@ -123,8 +148,8 @@ def gen_plan(rng, maxlen):
         elif r < 0.66:
             md = rng.choice(sorted(metas)) if metas and rng.random() < 0.8 else None
             op = {"t": "save", "slot": slot, "md": md, "path": path}
-            if rng.random() < 0.3:
-                op["fobj"] = True  # `location` is an open file object
+            if rng.random() < 0.4:
+                op.update(fobj_form(rng, True))  # `location` is an open file object (fresh file / after a header / appended to a stream)
             plan.append(op)
             saved[path] = states[slot]
             if rng.random() < 0.35:
@@ -145,15 +170,13 @@ def gen_plan(rng, maxlen):
             good = [p for p, a in saved.items() if a == states[slot]]
             p = rng.choice(good) if good and rng.random() < 0.7 else (rng.choice(sorted(saved)) if saved and rng.random() < 0.8 else path)
             plan.append({"t": "load", "slot": slot, "path": p})
-            if rng.random() < 0.3:
-                plan[-1]["fobj"] = True
+            plan[-1].update(fobj_form(rng, False))
         elif r < 0.97:
             p = rng.choice(sorted(saved)) if saved and rng.random() < 0.85 else path
             k = saved[p][0] if p in saved and rng.random() < 0.7 else rng.choice(["pos", "cplx", "dens"])
             s = rng.randrange(3)
             plan.append({"t": "autoload", "slot": s, "kind": k, "path": p})
-            if rng.random() < 0.3:
-                plan[-1]["fobj"] = True
+            plan[-1].update(fobj_form(rng, False))
             if p in saved and k == saved[p][0]:
                 states[s] = saved[p]
         else:
@@ -162,7 +185,8 @@ def gen_plan(rng, maxlen):
 
 
 def file_hash(p):
-    return hashlib.sha1(open(p, "rb").read()).hexdigest() if os.path.exists(p) else None
+    """hash of the bytes of a file; a missing file and an empty one (a stream the caller has just opened) hold the same: nothing"""
+    return hashlib.sha1(open(p, "rb").read() if os.path.exists(p) else b"").hexdigest()
 
 
 class Hooks:
@@ -209,7 +233,7 @@ class Hooks:
                 md = real.metas[op["mdslot"]]
             pre["md"] = md
             pre["md_copy"] = copy.deepcopy(md)
-            pre["hash"] = file_hash(real.path(op["path"]))
+            pre["hash"] = file_hash(real.target_of(op))
             pre["metas"] = {k: copy.deepcopy(v) for k, v in real.metas.items()}
         if t == "load":
             pre["snap"] = so.snapshot_state(real.models[op["slot"]])
@@ -228,9 +252,14 @@ class Hooks:
             self.dirty[op["slot"]] = True
         if t in ("construct", "constructFrom") and err is None:
             self.dirty[op["slot"]] = False
+        if t == "save" and op.get("fobj") and err is None and real.last_write is not None:
+            lw = real.last_write
+            ctx.oracle("save(open file object) writes the state from the object's current position on and leaves the bytes in front of it "
+                       "(the caller's header, earlier checkpoints of the stream) unchanged", lw["prefix_intact"] and lw["grew"], cs, detail=lw,
+                       sig="save/file-object-position", theorem="C11_no_side_effect, C11_history (other files keep their snapshot)")
         if t in ("save", "saverSave"):
             st = real.models[op["slot"]]
-            path = real.path(op["path"])
+            target = real.target_of(op)
             md = pre["md"]
             keys = list(pre["md_copy"].keys()) if pre["md_copy"] else []
             if t == "saverSave" and op["src"] == "callable":
@@ -251,14 +280,17 @@ class Hooks:
             ctx.oracle("save leaves the model unchanged", so.deep_equal(now["nets"], pre["snap"]["nets"]) and so.deep_equal(now["ud"], pre["snap"]["ud"]),
                        cs, sig="save/model-mutated", theorem="C11_no_side_effect")
             if err is not None:
-                ctx.oracle("a refused save writes nothing", file_hash(path) == pre["hash"], cs, sig="save/wrote-after-refusal", theorem="C11_reserved")
-            elif not os.path.exists(path):
+                ctx.oracle("a refused save writes nothing", file_hash(target) == pre["hash"], cs, sig="save/wrote-after-refusal", theorem="C11_reserved")
+            elif not real.file_exists(op["path"]):
                 what = ("ModelSaver(period, folder, file_name).on_epoch_end(state, epoch) with epoch % period == 0 writes folder/file_name.format(epoch)"
                         if t == "saverSave" else "a successful save leaves a file at the requested location")
-                ctx.oracle(what, False, cs, detail={"expected_file": os.path.basename(path), "present": sorted(os.listdir(real.tmp))[:8]},
+                ctx.oracle(what, False, cs, detail={"expected_file": os.path.basename(target), "present": sorted(os.listdir(real.tmp))[:8]},
                            sig=f"{t}/no-file", theorem="C11_roundtrip")
             else:
-                f = torch.load(path, weights_only=False)
+                try:
+                    f = real.read_file(op["path"])
+                except Exception as e:  # noqa: BLE001 - what the save wrote is not a checkpoint torch can read
+                    f = {"<unreadable>": type(e).__name__}
                 if monly:
                     self.last_saved[op["path"]] = {"metadata_only": True}
                     if op["src"] != "callable":
@@ -279,7 +311,7 @@ class Hooks:
                         ctx.count("double_save")
             if self.prev is not None and self.prev["op"] == op and self.prev["err"] is None and not monly:
                 ctx.oracle("second save with the same arguments succeeds", err is None, cs, detail={"err": err}, sig="save/second-save-fails", theorem="C11_idempotent")
-            self.prev = {"op": dict(op), "err": err, "file": torch.load(path, weights_only=False) if err is None and os.path.exists(path) else None}
+            self.prev = {"op": dict(op), "err": err, "file": f if err is None and real.file_exists(op["path"]) else None}
         else:
             self.prev = None
         if t == "load":
@@ -305,8 +337,13 @@ class Hooks:
                 else:
                     ctx.oracle("load into an incompatible model fails", err is not None, cs, sig="load/incompatible-accepted")
                     ctx.count("load_incompatible")
-        if op.get("fobj") and t in ("save", "load", "autoload"):
-            ctx.count(f"location_is_open_file:{t}")
+        if t in ("save", "load", "autoload"):
+            is_fobj = bool(op.get("fobj")) or (t != "save" and real.must_be_fileobj(op["path"]))
+            if is_fobj:
+                ctx.count(f"location_is_open_file:{t}" + (":BytesIO" if op.get("io") == "bytes" else ""))
+                phys, off = (real.target_of(op), (real.last_write or {}).get("start", 0)) if t == "save" else real.where(op["path"])
+                if off != 0:
+                    ctx.count(f"location_starts_at_nonzero_position:{t}" + (":in_a_stream_of_checkpoints" if os.path.basename(phys).startswith("stream") else ":after_a_header"))
         if t in ("save", "saverSave") and pre.get("md_copy") and "unitary_dict" in pre["md_copy"] and "unitary_dict" not in real.models[op["slot"]].__dict__:
             ctx.count("metadata_key_unitary_dict_on_state_without_dictionary:" + ("accepted" if err is None else str(err)))
         if t == "autoload":
@@ -324,7 +361,7 @@ class Hooks:
                         now = so.snapshot_state(real.models[op["slot"]])
                         ok = (now["arch"] == snap["arch"] and so.deep_equal(now["nets"], snap["nets"]) and so.deep_equal(now["ud"], snap["ud"]))
                     ctx.oracle("autoload reproduces architecture, parameters and unitary dict of the last save", ok, cs, detail={"err": err},
-                               sig="autoload/file-object" if op.get("fobj") else "autoload/roundtrip", theorem="C11_roundtrip_autoload")
+                               sig="autoload/file-object" if (op.get("fobj") or real.must_be_fileobj(op["path"])) else "autoload/roundtrip", theorem="C11_roundtrip_autoload")
                     ctx.count("autoload_same_kind")
                     if ls["dirty"]:
                         self.nontrivial = True
@@ -412,6 +449,30 @@ def fixed_cases():
         c(t="construct", slot=2, kind="dens", nv=2, nh=3, na=1, ud=None), c(t="write", slot=2, net="rbm_am"), c(t="save", slot=2, md=None, path=1, fobj=True),
         c(t="autoload", slot=0, kind="dens", path=1, fobj=True), c(t="mkMeta", mdslot=1, items=MD_KINDS["res_ud"]), c(t="save", slot=2, md=1, path=1, fobj=True),
         c(t="autoload", slot=1, kind="dens", path=1), c(t="load", slot=0, path=1, fobj=True)]}
+
+    # file objects that do NOT start at position 0, for every state type: a stream of checkpoints (the same model saved, changed, saved
+    # again into one open file; another model's checkpoint behind it), each checkpoint auto-loaded / loaded from its own start position;
+    # a state saved behind a header the caller wrote first; real files and io.BytesIO
+    for i, (kind, nh, na) in enumerate((("pos", 3, None), ("cplx", 1, None), ("dens", 3, 1))):
+        ud = None if kind == "pos" else ["H"]
+        other = {"pos": "cplx", "cplx": "dens", "dens": "pos"}[kind]
+        yield {"tseed": 107 + i, "plan": [
+            c(t="construct", slot=0, kind=kind, nv=2, nh=nh, na=na, ud=ud), c(t="write", slot=0, net="rbm_am"),
+            c(t="mkMeta", mdslot=0, items=MD_KINDS["flat"]),
+            c(t="save", slot=0, md=0, path=0, fobj=True, stream=0),                       # checkpoint 1 of the stream
+            c(t="write", slot=0, net="rbm_am"), c(t="save", slot=0, md=0, path=1, fobj=True, stream=0),   # checkpoint 2 (same model, trained on)
+            c(t="autoload", slot=2, kind=kind, path=1), c(t="write", slot=0, net="rbm_am"), c(t="load", slot=0, path=1, io="bytes"),
+            c(t="construct", slot=1, kind=other, nv=3, nh=2, na=(2 if other == "dens" else None), ud=None), c(t="write", slot=1, net="rbm_am"),
+            c(t="save", slot=1, md=None, path=2, fobj=True, stream=0, io="bytes"),        # checkpoint 3: another model
+            c(t="autoload", slot=2, kind=other, path=2), c(t="autoload", slot=2, kind=other, path=2, io="bytes"),
+            c(t="write", slot=0, net=so.NETS[kind][-1]), c(t="save", slot=0, md=0, path=3, fobj=True, hdr=14),   # state behind a 14-byte header
+            c(t="save", slot=0, md=0, path=3, fobj=True, hdr=14), c(t="autoload", slot=2, kind=kind, path=3),
+            c(t="save", slot=0, md=None, path=4, fobj=True, hdr=1000, io="bytes"), c(t="autoload", slot=1, kind=kind, path=4, io="bytes"),
+            c(t="reinit", slot=0), c(t="load", slot=0, path=3),
+            c(t="save", slot=0, md=0, path=1),                                            # the file number now names an ordinary file
+            c(t="autoload", slot=2, kind=kind, path=1),
+            c(t="mkMeta", mdslot=1, items=MD_KINDS["res_am"]), c(t="save", slot=0, md=1, path=0, fobj=True, stream=0),   # refused: nothing appended
+            c(t="autoload", slot=2, kind=other, path=2)]}
 
 
 def gen_cases(ctx, thorough, ncases=None):
